@@ -663,6 +663,17 @@ def search(ctx):
 
 
 def replay(ctx, rec):
-    case = rec["case"]
-    case = {k: v for k, v in case.items() if k != "shrunk_from"}
-    run_cases(ctx, [case], label="replay")
+    """Re-run a replay file: a violation record (one case) or a broken-tie record (the cases it names)."""
+    recs = [rec] if "case" in rec else [t for t in rec.get("no_longer_checks", []) if isinstance(t.get("case"), dict)]
+    cases = []
+    for r in recs:
+        case = {k: v for k, v in r["case"].items() if k != "shrunk_from"}
+        if "nodes" in case:
+            cases.append(case)
+    run_cases(ctx, cases, label="replay")
+    # the known findings' witnesses are replayed as in a normal run, so that the verdict is complete
+    known = {f["id"] for f in ctx.known()}
+    findings = [r for r in load_corpus("findings.jsonl") if r["id"] in known]
+    res = run_cases(ctx, [dict(r["case"], shape="corpus", corpus_id=r["id"]) for r in findings], label="corpus")
+    for (c, i, spec, model, _), r in zip(res, findings):
+        ctx.finding(r["id"], kind_of(i, spec) != "ok", "replayed witness")
